@@ -8,8 +8,9 @@
    Pointers that can be nil are options: c.Metadata, the entries of Metadata.Dependencies
    (a YAML `- null` list item); Metadata.Dependencies itself distinguishes the nil slice
    (key absent) from the empty one.  Entries of c.Dependencies() are never nil (the loader
-   only appends loaded charts).  Value semantics: in-place mutation of shared *Dependency
-   structs between alias copies of one subchart is not modelled (C11's subject). *)
+   only appends loaded charts).  Value semantics: getAliasDependency returns copyChart(c) (a
+   deep copy of metadata, requirement records and subcharts, since 4157108), which is the
+   same value. *)
 From Coq Require Import List String Ascii Bool ZArith.
 From Helm Require Import Values.Tree Misc.Panics.
 Import ListNotations.
@@ -267,9 +268,12 @@ Section Deps.
     | O => Panic "recursion budget exhausted"
     | S fuel' =>
         md <- deref "c.Metadata.Dependencies" (c_md c) ;;
-        match m_deps md with
-        | None => Ok c
-        | Some reqs =>
+        (* if c.Metadata.Dependencies == nil && len(c.Dependencies()) == 0 { return nil }  (since 20099bc:
+           a chart without requirements still has the requirements of its subcharts processed) *)
+        if (match m_deps md with None => true | Some _ => false end) && Nat.eqb (List.length (c_subs c)) 0
+        then Ok c
+        else
+            let reqs := match m_deps md with Some r => r | None => [] end in
             extra <- unlisted (c_subs c) reqs ;;
             ap <- alias_pass (c_subs c) reqs ;;
             let chart_deps := (extra ++ fst ap)%list in
@@ -294,7 +298,6 @@ Section Deps.
                 Ok (Chart (Some (set_deps md (match cdm with [] => None | _ => Some (map Some cdm) end)))
                           (c_vals c) cd')
             end
-        end
     end.
 
   (* ---- import-values ---- *)
